@@ -289,6 +289,28 @@ pub fn run(ctx: &Ctx) -> i32 {
         real_fixture(false);
         bounds.push(format!("{} x {} pairs of paths below a directory that exists on the real filesystem ({}: a -> b/b, b/a -> .., b/b a directory)", paths.len(), paths.len(), root));
     }
+    // hidden process state: with the process inside a directory that no longer exists, relative() of two
+    // absolute paths answers as before (it has no business asking for the working directory)
+    {
+        let before = std::env::current_dir().ok();
+        let gone = format!("{}-gone", REAL_ROOT);
+        let _ = std::fs::remove_dir_all(&gone);
+        let entered = std::fs::create_dir_all(&gone).is_ok() && std::env::set_current_dir(&gone).is_ok() && std::fs::remove_dir(&gone).is_ok();
+        if entered {
+            let paths = enum_paths(&["a", "b"], 2);
+            for p in &paths {
+                for b in &paths {
+                    record(p, b, &c);
+                }
+            }
+            bounds.push(format!("{} x {} pairs over {{a,b}} <=2 components evaluated while the process's working directory does not exist", paths.len(), paths.len()));
+        }
+        let _ = std::env::set_current_dir(before.as_deref().unwrap_or(std::path::Path::new("/")));
+        if !entered {
+            eprintln!("machinery: C16 could not enter and remove a scratch working directory");
+            return 2;
+        }
+    }
     // long paths: the number of '..' and of kept components grows with the depth; every depth up to 64 on
     // either side, against the root, a sibling chain and a chain sharing a prefix of every length
     {
@@ -460,9 +482,22 @@ fn replay(ctx: &Ctx, f: &std::path::Path) -> i32 {
     println!("replay C16 path={:?} base={:?}", p, b);
     println!("  observed : relative(path, base) = {}", got_s);
     println!("  expected : {:?} (reference navigation; any result satisfying the statement is accepted)", crate::models::tree::ref_relative(&p, &b));
-    let verdict = check_pair(&p, &b);
+    let mut verdict = check_pair(&p, &b);
     if real {
         real_fixture(false);
+    }
+    if verdict.is_none() {
+        // once more from a working directory that does not exist any more (the sweep does that too)
+        let before = std::env::current_dir().ok();
+        let gone = format!("{}-gone", REAL_ROOT);
+        let _ = std::fs::remove_dir_all(&gone);
+        if std::fs::create_dir_all(&gone).is_ok() && std::env::set_current_dir(&gone).is_ok() && std::fs::remove_dir(&gone).is_ok() {
+            verdict = check_pair(&p, &b);
+            if verdict.is_some() {
+                println!("  (with the process's working directory removed)");
+            }
+        }
+        let _ = std::env::set_current_dir(before.as_deref().unwrap_or(std::path::Path::new("/")));
     }
     match verdict {
         Some((sig, detail)) => {
